@@ -157,14 +157,16 @@ class World:
         self.ev("quiesce", n=n)
         return n
 
-    def advance_to(self, t_ms):
+    def advance_to(self, t_ms, hold=False):
+        """Run the clock to t_ms, firing the timers on the way.  hold: a timer due at exactly t_ms is
+        NOT fired yet (the next script op happens at that very instant, before the loop turns)."""
         target = t_ms / 1000
         if target < self.loop._vt:
             raise MachineryError("time cannot go backwards")
         self.quiesce()
         while True:
             nt = self.loop.next_timer()
-            if nt is None or nt > target:
+            if nt is None or nt > target or (hold and nt >= target - 1e-9):
                 break
             if nt > self.loop._vt:
                 self.loop._vt = nt
@@ -276,9 +278,9 @@ class World:
 
     def op_advance(self, op):
         if "to" in op:
-            self.advance_to(op["to"])
+            self.advance_to(op["to"], hold=bool(op.get("hold")))
         else:
-            self.advance_to(ms(self.loop.time()) + op["by"])
+            self.advance_to(ms(self.loop.time()) + op["by"], hold=bool(op.get("hold")))
 
     def op_auto(self, op):
         self.net.auto = op.get("how") or None
@@ -341,6 +343,9 @@ class World:
 
     def op_resume(self, op):
         tr = self._tr(op)
+        for a in self.net.attempts:  # closes that were waiting for a stalled buffer to drain complete
+            if a["tr"] is not None:
+                a["tr"].finish_deferred_close()
         if tr is not None:
             tr.pause_in = 0          # the console reads again: an armed stall is off as well
         if tr is None or tr.lost:
